@@ -3,7 +3,7 @@ import ast
 
 from . import rule, info
 from ..program import AnalysisError, src, norm, ClassInfo
-from ..util import (is_name, calls_in, callee_qual, deref, ancestors, stmt_of, parent, handler_outcomes,
+from ..util import (polarity, is_name, calls_in, callee_qual, deref, ancestors, stmt_of, parent, handler_outcomes,
                     handler_covers, fmt_witness, completes_normally, evaluator_calls)
 from .c01 import model
 
@@ -136,9 +136,24 @@ def misses_dropped(ctx):
     st = [n for s in b.body for n in ast.walk(s) if isinstance(n, ast.Assign) and isinstance(n.targets[0], ast.Attribute)
           and n.targets[0].attr == '__ops__' and is_name(n.targets[0].value, todo)]
     ok = len(st) == 1 and isinstance(st[0].value, ast.BinOp) and isinstance(st[0].value.left, ast.Tuple) \
-        and len(st[0].value.left.elts) == 1 and is_name(st[0].value.left.elts[0], m.root_var) \
+        and len(st[0].value.left.elts) == 1 \
         and isinstance(st[0].value.right, ast.Subscript) and is_name(st[0].value.right.value, m.ops_var)
-    ctx.ob(ok, u, 'the delegated expression keeps the root and the steps after the wildcard: %s' % [norm(s) for s in st])
+    ctx.ob(ok, u, 'the delegated expression is a root plus the steps after the wildcard: %s' % [norm(s) for s in st])
+    if ok:
+        # the remaining steps are applied to each *entry*: the interpreter starts from its target
+        # argument only for root T (C01.4), so an S-rooted expression must delegate with root T --
+        # with its own root the evaluation restarts from the scope for every entry
+        e = st[0].value.left.elts[0]
+        s_to_t = False
+        if isinstance(e, ast.IfExp):
+            pol = polarity(e.test, '%s is S' % m.root_var)
+            if pol:
+                when_s = e.body if pol == 'true' else e.orelse
+                s_to_t = p.global_qualname(u, when_s) == 'core.T'
+        okr = s_to_t or (isinstance(e, ast.Name) and p.global_qualname(u, e) == 'core.T')
+        ctx.ob(okr, u, 'after a wildcard the remaining steps start from each entry, for S-rooted expressions too: %s' % norm(e),
+               '' if okr else "the delegated root is `%s`: for root S the recursion starts from the scope, "
+               "glom(t, (S(v=..), S.v['a'].__star__()['b'])) returns [] instead of one value per entry" % norm(e), node=st[0])
     # loop is left after delegating
     last = b.body[-1]
     ctx.ob(isinstance(last, ast.Break), u, 'after delegating the remaining steps the interpreter loop is left (break)')
